@@ -160,6 +160,43 @@ def fuzz_sources(rnd, n):
     return out
 
 
+def keyword_adjacent_sources():
+    """token-balanced but malformed attribute lists (the structural parser gives up and any text fallback runs) in
+    which a word the fallbacks search for stands directly after / before a 2-, 3- or 4-byte character - inside a
+    literal and as a key: offsets computed around the match are byte offsets, the neighbours are not bytes"""
+    out = []
+    chars = ["\u00e9", "\u20ac", "\U0001d54f"]
+    serde_kw = ["rename", "rename_all", "alias", "skip", "default", "serialize", "deserialize"]
+    valid_kw = ["message", "min", "max", "length", "range", "email", "url", "custom", "regex"]
+    n = 0
+    for kw in serde_kw:
+        body = []
+        for ci, ch in enumerate(chars):
+            for pi, lit in enumerate((ch + kw, kw + ch, ch + kw + ch, ch + kw + " = " + ch)):
+                forms = ['alias = "%s" %s = "given"' % (lit, kw), '%s "%s"' % (kw, lit), '"%s" %s = "x"' % (lit, kw), '%s = "%s" = 1' % (kw, lit),
+                         'other("%s") %s("%s")' % (lit, kw, lit), '"%s"' % lit]
+                for fi, f in enumerate(forms):
+                    t = "K%d_%d_%d_%d" % (n, ci, pi, fi)
+                    body.append("#[derive(Serialize, Deserialize)]\n#[serde(%s)]\npub struct S%s { #[serde(%s)] pub some_field: String, pub age: u8 }\n"
+                                "#[derive(Serialize, Deserialize)]\npub enum E%s { #[serde(%s)] FirstOne, B }\n"
+                                "#[tauri::command]\npub fn c%s(#[serde(%s)] first_arg: S%s, b: E%s) {}\n" % (f, t, f, t, f, t.lower(), f, t, t))
+        out.append(("kwadj-serde-%s" % kw, rustgen.PRELUDE + "\n".join(body), "malformed serde lists with `%s` beside multi-byte characters" % kw))
+        n += 1
+    for kw in valid_kw:
+        body = []
+        for ci, ch in enumerate(chars):
+            for pi, lit in enumerate((ch + kw, kw + ch, ch + kw + ch, ch + kw + " = " + ch)):
+                forms = ['length(message = "%s" %s = 1)' % (lit, kw), '%s "%s"' % (kw, lit), '"%s" %s(min = 1)' % (lit, kw), 'length(min = 1, message = "%s") = 3' % lit,
+                         'range(%s = , message = "%s")' % (kw, lit), '"%s"' % lit, 'email(message = "%s" message = "%s")' % (lit, lit)]
+                for fi, f in enumerate(forms):
+                    t = "V%d_%d_%d_%d" % (n, ci, pi, fi)
+                    body.append("#[derive(Serialize, Deserialize)]\npub struct S%s { #[validate(%s)] pub f: String, #[validate(%s)] pub g: f64 }\n"
+                                "#[tauri::command]\npub fn c%s(a: S%s) {}\n" % (t, f, f, t.lower(), t))
+        out.append(("kwadj-validate-%s" % kw, rustgen.PRELUDE + "use validator::Validate;\n" + "\n".join(body), "malformed validate lists with `%s` beside multi-byte characters" % kw))
+        n += 1
+    return out
+
+
 def run(tier, seed):
     t0 = time.time()
     d = C.scratch("c15")
@@ -172,6 +209,7 @@ def run(tier, seed):
     sources.append(("exotic-all", rustgen.PRELUDE + "use validator::Validate;\n" + "\n".join(EXOTIC_ITEMS) + "\n#[tauri::command]\npub fn anchor_all() {}\n", "all exotic items together"))
     sources += arity_sources()
     sources += nonascii_type_sources()
+    sources += keyword_adjacent_sources()
     sources += fuzz_sources(rnd, 360 if tier == "quick" else 4500)
 
     def work(src):
@@ -181,6 +219,8 @@ def run(tier, seed):
             root = os.path.join(d, "%s-%s" % (name, mode))
             rustgen.write_project(root, {"src/lib.rs": text})
             r = runner.generate(root, mode=mode)
+            if name.startswith("kwadj-") and "Failed to parse" in r.err:
+                raise C.ToolError("source %s is meant to be parsable Rust but the analyser skipped it: %s" % (name, r.err[-300:]))
             res.append((name, mode, r.status, r.err[-300:], what))
             shutil.rmtree(root, ignore_errors=True)
         return res
